@@ -51,7 +51,7 @@ func (e *Explorer) Determinism(prefix []int) error {
 // Explore runs the DFS. Level 0 (root) and level 1 executions are run by every shard but only
 // checked by shard 0; level-2 subtrees are dealt round-robin to the shards.
 func (e *Explorer) Explore() {
-	e.explore(nil, 0)
+	e.explore(nil, 0, nil)
 }
 
 func (e *Explorer) mine(level int, idx int64) bool {
@@ -64,7 +64,7 @@ func (e *Explorer) mine(level int, idx int64) bool {
 	return int(idx%int64(e.Shards)) == e.Shard
 }
 
-func (e *Explorer) explore(prefix []int, level int) {
+func (e *Explorer) explore(prefix []int, level int, parent *Result) {
 	if e.Capped || e.Diverged != "" {
 		return
 	}
@@ -85,6 +85,19 @@ func (e *Explorer) explore(prefix []int, level int) {
 	x := Run(prefix, e.Horizon, e.Body)
 	if x.Diverged != "" {
 		e.Diverged = fmt.Sprintf("prefix %v: %s", prefix, x.Diverged)
+		if TraceOn && parent != nil {
+			a, b := parent.Trace, x.Trace
+			for j := 0; j < len(a) && j < len(b); j++ {
+				if a[j] != b[j] {
+					lo := j - 10
+					if lo < 0 {
+						lo = 0
+					}
+					e.Diverged += fmt.Sprintf("\nparent and child traces differ at step %d: parent %s child %s\ncontext: %v\nparent log: %v\nchild log: %v\nPARENT TRACE: %v\nCHILD TRACE: %v", j, a[j], b[j], a[lo:j], parent.Log, x.Log, a, b)
+					break
+				}
+			}
+		}
 		return
 	}
 	if owned {
@@ -117,7 +130,7 @@ func (e *Explorer) explore(prefix []int, level int) {
 			if nl > 3 {
 				nl = 3
 			}
-			e.explore(np, nl)
+			e.explore(np, nl, x)
 		}
 	}
 }
